@@ -103,3 +103,30 @@ def one_gene_world(rng, small=False, **force):
         o["lfusion"] = o["rfusion"] = False
     ro = read_opts(rng)
     return W.gen_world(rng, 1, [o], ro, margin=max(200, ro["L"] + 60))
+
+
+def add_pseudogene_variants(rng, world, units, n=1):
+    """Small deletions / substitutions private to a pseudogene copy of a unit."""
+    g = world["genes"][0] if len(world["genes"]) == 1 else None
+    for gene in world["genes"]:
+        if gene["pregions"] is None or gene.get("no_reads"):
+            continue
+        contig = world["contig"]["seq"]
+        us = units.get(gene["name"]) if isinstance(units, dict) else units
+        if not us:
+            continue
+        for _ in range(n):
+            u = rng.choice(us)
+            if u["type"] == "extra":
+                continue
+            nm, a, b = rng.choice(gene["pregions"][1:-1])
+            if b - a < 30:
+                continue
+            gpos = rng.randint(a + 8, b - 12)
+            if rng.random() < 0.7:
+                k = rng.randint(1, 3)
+                v = {"kind": "del", "g": gpos, "ref": contig[gpos:gpos + k], "alt": "", "copy": 0}
+            else:
+                ref = contig[gpos]
+                v = {"kind": "snp", "g": gpos, "ref": ref, "alt": rng.choice([x for x in "ACGT" if x != ref]), "copy": 0}
+            u.setdefault("pseudo_vars", []).append(v)
